@@ -466,6 +466,10 @@ fn split_case(line: &str) -> Option<(Header, Vec<Vec<&str>>)> {
 fn child(a: &Args, out: &mut Out) {
     let lines: Vec<String> = std::fs::read_to_string(&a.rest[0]).unwrap().lines().map(|l| l.trim().to_string()).filter(|l| !l.is_empty()).collect();
     let Some((hd0, _)) = lines.first().and_then(|l| split_case(l)) else { return };
+    // C22_TRACE=<filter> prints the node's tracing output to stderr (debugging aid; see C22_LOUD)
+    if let Ok(f) = std::env::var("C22_TRACE") {
+        let _ = tracing_subscriber::fmt().with_env_filter(tracing_subscriber::EnvFilter::new(f)).with_writer(std::io::stderr).try_init();
+    }
     let (p, b) = (hd0.p, hd0.b);
     let rt = tokio::runtime::Builder::new_multi_thread().worker_threads(4).enable_all().build().unwrap();
     let mk_db = |dir: &std::path::Path| DatabaseBuilder::new().segment_size_bytes(1024 * 1024).total_buckets(b).bucket_ids_from_range(0..b)
